@@ -99,7 +99,7 @@ theorem sc_refresh (c : SCfg) (s : SSt) (l : Nat) (d : Rat) : sc (refresh c s l 
   rw [refresh_eq, sc_setS]
 
 theorem sc_slCopy (c : SCfg) (s : SSt) : sc (slCopy c s) = sc (slFresh c s) :=
-  foldl_pres sc _ (fun t l => sc_setS _ _ _) _ _
+  foldl_pres sc _ (fun _ _ => sc_setS _ _ _) _ _
 
 theorem sc_slFresh (c : SCfg) (s : SSt) :
     sc (slFresh c s) = (s.steps, s.hyper, s.defs, s.pass, List.replicate c.nLayers 0, c.nLayers) := by
@@ -219,6 +219,17 @@ theorem step_wh (c : SCfg) (s : SSt) (h' : Hyper)
   have p2 : (wh h' s).hyper = h' := rfl
   simp only [p1, p2, e1, e2, e3, e4, e5, e6, stepA_wh, stepB_wh, stepOut_wh]
   rfl
+
+theorem step_sched (c : SCfg) (s : SSt) (h' : Hyper)
+    (e1 : h'.fus.val s.steps = s.hyper.fus.val s.steps) (e2 : h'.ius.val s.steps = s.hyper.ius.val s.steps)
+    (e3 : h'.damping.val s.steps = s.hyper.damping.val s.steps) (e4 : h'.decay.val s.steps = s.hyper.decay.val s.steps)
+    (e5 : h'.kl.val s.steps = s.hyper.kl.val s.steps) (e6 : h'.lr.val s.steps = s.hyper.lr.val s.steps) :
+    (step c s).out = (step c { s with hyper := h' }).out ∧ (step c s).layers = (step c { s with hyper := h' }).layers ∧
+    (step c s).defs = (step c { s with hyper := h' }).defs ∧ (step c s).steps = (step c { s with hyper := h' }).steps := by
+  have h := step_wh c s h' e1 e2 e3 e4 e5 e6
+  unfold wh at h
+  rw [h]
+  exact ⟨rfl, rfl, rfl, rfl⟩
 
 theorem precond_damping (c : SCfg) (s : SSt) (l : Nat) (d d' : Rat)
     (hm : c.method = .inverse ∨ c.prediv = true) : precond c s l d = precond c s l d' := by
